@@ -1,0 +1,64 @@
+//go:build verif
+
+// Contracts for the gvc verifier (/verif). This file contains comments only:
+// with the "verif" build tag off it is not compiled, with it on it adds no code.
+
+package schema
+
+// ---------------------------------------------------------------------------
+// Range and length boundaries: a value is accepted iff start <= v <= end.
+
+//@ func (Rb).Validate
+//@   nopanic
+//@   ensures iff(result == nil, r.Start <= i && i <= r.End)
+//@ func (Urb).Validate
+//@   nopanic
+//@   ensures iff(result == nil, r.Start <= i && i <= r.End)
+//@ func (Drb).Validate
+//@   requires i == i && r.Start == r.Start && r.End == r.End
+//@   nopanic
+//@   ensures iff(result == nil, r.Start <= i && i <= r.End)
+//@ func (Lb).Validate
+//@   nopanic
+//@   ensures iff(result == nil, r.Start <= i && i <= r.End)
+
+// Error text helper: builds a message from the type's restrictions (pure; body not verified).
+//@ func genErrorString
+//@   assumed
+
+// ---------------------------------------------------------------------------
+// Built-in types (RFC 6020 section 9): Validate accepts exactly the lexical space.
+
+//@ func (*boolean).Validate
+//@   ensures iff(result == nil, s == "true" || s == "false")
+//@ func (*empty).Validate
+//@   ensures iff(result == nil, s == "")
+//@ func (*enumeration).Validate
+//@   requires e != nil && forall(k, 0, len(e.enums), e.enums[k] != nil)
+//@   ensures iff(result == nil, exists(k, 0, len(e.enums), e.enums[k].Val == s))
+//@   loop 0 invariant forall(k, 0, loopidx+1, e.enums[k].Val != s)
+//@ func (*identityref).Validate
+//@   requires i != nil && forall(k, 0, len(i.identities), i.identities[k] != nil)
+//@   ensures iff(result == nil, exists(k, 0, len(i.identities), i.identities[k].Val == s))
+//@   loop 0 invariant forall(k, 0, loopidx+1, i.identities[k].Val != s)
+
+// ---------------------------------------------------------------------------
+// min-elements / max-elements (RFC 6020 7.7.3, 7.7.4): max 0 or ^uint(0) means unbounded.
+//@ func cardinalityInRange
+//@   requires len >= 0
+//@   ensures iff(result == nil, (min == 0 || len >= min) && (max == 0 || max == 18446744073709551615 || len <= max))
+
+// Integer types: accepted iff the string is an integer literal, the value fits the width of the type and,
+// when ranges are given, lies in one of them (RFC 6020 9.2).
+//@ func (*integer).Validate
+//@   requires i != nil && (i.t == 8 || i.t == 16 || i.t == 32 || i.t == 64)
+//@   ensures iff(result == nil, int_lex(s) && int_fits(int_val(s), i.t) &&
+//@           (len(i.rbs) == 0 || exists(k, 0, len(i.rbs), i.rbs[k].Start <= int_val(s) && int_val(s) <= i.rbs[k].End)))
+//@   loop 0 invariant forall(k, 0, loopidx+1, !(i.rbs[k].Start <= int_val(s) && int_val(s) <= i.rbs[k].End))
+//@   loop 0 invariant iff(loopidx >= 0, e != nil)
+//@ func (*uinteger).Validate
+//@   requires i != nil && (i.t == 8 || i.t == 16 || i.t == 32 || i.t == 64)
+//@   ensures iff(result == nil, uint_lex(s) && uint_fits(int_val(s), i.t) &&
+//@           (len(i.rbs) == 0 || exists(k, 0, len(i.rbs), i.rbs[k].Start <= int_val(s) && int_val(s) <= i.rbs[k].End)))
+//@   loop 0 invariant forall(k, 0, loopidx+1, !(i.rbs[k].Start <= int_val(s) && int_val(s) <= i.rbs[k].End))
+//@   loop 0 invariant iff(loopidx >= 0, e != nil)
